@@ -39,6 +39,8 @@ TIES = {
     "strip_fd_prefix": ("_strip_fd_prefix", [">", ">>", "<", "&", "|", "1", "2", "10", "{", "}", "v", "_", "-", "a"], (4, 5), (2000, 40000), _ident, str),
     "sets_execution_var": ("allowlists:sets_execution_var", ["PATH", "LD_PRELOAD", "IFS", "PATHX", "XPATH", "a", "_", "1", "=", "+", ":", "/bin", "/usr/bin", "/tmp", ".", "[", " ", "$PATH"],
                            (4, 5), (4000, 80000), _bool, lambda r: r is not None),
+    "analyze_prelude": ("_analyze_prelude_probe", [" ", "\t", "\n", "\r", "\x0b", "\x0c", "\xa0", "\u2003", "\u0085", "\u2028", "\ufeff", "a", "ls", ";", "'", "\x00"],
+                        (4, 5), (3000, 60000), _ident, None),
     "plain_raw": ("_is_plain_raw", ["$(", ")", "(", "`", "#", " ", "\n", "'", '"', "\\", "a", ";", "${", "}"], (4, 5), (3000, 60000), _bool, bool),
 }
 
@@ -57,7 +59,27 @@ def run_ties(out, model, names, tier, rng, an=None):
     diffs = {}
     for name in names:
         attr, tokens, lens, nrand, dec, conv = TIES[name]
-        if ":" in attr:      # a helper of another module of dippy.core
+        if attr == "_analyze_prelude_probe":
+            # analyze() has no separate prelude function: observe what reaches the parser (a spy in place of parse)
+            reached = []
+
+            def spy(text):
+                reached.append(text)
+                return []
+
+            def f(s, an=an, reached=reached, spy=spy):
+                real = an.parse
+                an.parse = spy
+                try:
+                    del reached[:]
+                    an.analyze(s, None, None)
+                finally:
+                    an.parse = real
+                return [reached[0]] if reached else []
+
+            conv = lambda r: r  # noqa: E731
+            dec = lambda m: m if isinstance(m, list) else m  # noqa: E731
+        elif ":" in attr:      # a helper of another module of dippy.core
             import importlib
             modname, attr = attr.split(":")
             f = getattr(importlib.import_module("dippy.core." + modname), attr, None)
